@@ -48,7 +48,54 @@ def make_module(pid, specs, name='mod'):
     return mod
 
 
-def run_sideb(pid, specs, props_filter=None, label='sideB'):
+def snapshot_gen(mod):
+    snap = {}
+    for root, dirs, files in os.walk(mod):
+        for f in files:
+            if f == 'wire_gen.go':
+                snap[os.path.relpath(os.path.join(root, f), mod)] = open(os.path.join(root, f), 'rb').read()
+    return snap
+
+
+def determinism_checks(pid, wire, mod, res, label):
+    """C16 supplement (enumerated runs, not solver-decided): repeat, other location, other invocation directory
+    and per-package patterns must give byte-identical files without absolute paths."""
+    base = snapshot_gen(mod)
+    for rel, data in base.items():
+        if mod.encode() in data or b'/verif/' in data or b'/tmp/' in data:
+            res['confirmed'].append(dict(cls='C16:generated file contains an absolute path', props=['C16'], msg='absolute path in %s' % rel,
+                                         artifact_dir=os.path.join(mod, os.path.dirname(rel)), model=None, harness=label))
+    sh([wire, 'gen', './...'], mod)
+    again = snapshot_gen(mod)
+    other = os.path.join(workdir(pid), 'elsewhere', 'deeper', 'corpus_copy')
+    shutil.rmtree(os.path.join(workdir(pid), 'elsewhere'), ignore_errors=True)
+    shutil.copytree(mod, other, ignore=shutil.ignore_patterns('wire_gen.go', 'zz_replay_*'))
+    gm = open(os.path.join(other, 'go.mod')).read()
+    pk_dirs = sorted(d for d in os.listdir(other) if re.fullmatch(r'p\d+', d))
+    # from a package directory, naming packages one by one with relative patterns
+    if pk_dirs:
+        first = os.path.join(other, pk_dirs[0])
+        for i in range(0, len(pk_dirs), 40):
+            sh([wire, 'gen'] + ['../' + d + '/...' for d in pk_dirs[i:i + 40]], first)
+    moved = snapshot_gen(other)
+    shutil.rmtree(os.path.join(workdir(pid), 'elsewhere'), ignore_errors=True)
+    res['extra']['determinism'] = dict(files=len(base), repeat_equal=0, moved_equal=0)
+    for rel, data in base.items():
+        if again.get(rel) == data:
+            res['extra']['determinism']['repeat_equal'] += 1
+        else:
+            res['confirmed'].append(dict(cls='C16:repeated run differs', props=['C16'], msg='second wire gen produced different bytes for %s' % rel,
+                                         artifact_dir=os.path.join(mod, os.path.dirname(rel)), model=None, harness=label))
+        if moved.get(rel) == data:
+            res['extra']['determinism']['moved_equal'] += 1
+        else:
+            res['confirmed'].append(dict(cls='C16:output depends on location or invocation', props=['C16'],
+                                         msg='wire gen in another checkout location, run from a package directory with per-package patterns, produced different bytes for %s' % rel,
+                                         artifact_dir=os.path.join(mod, os.path.dirname(rel)), model=None, harness=label))
+    res['disagreements_checked'] += 2 * len(base)
+
+
+def run_sideb(pid, specs, props_filter=None, label='sideB', determinism=False):
     """Returns a result dict in the shape runner.write_evidence understands."""
     t0 = time.time()
     res = dict(entry=label, programs=len(specs), paths=0, completed=0, decisions=0, violations=[], confirmed=[], inconclusive_list=[],
@@ -81,6 +128,8 @@ def run_sideb(pid, specs, props_filter=None, label='sideB'):
                 res['confirmed'].append(dict(cls='%s:ill-formed program accepted' % ','.join(sp.reject_props), props=sp.reject_props,
                                              msg='wire gen accepted a program it must reject (%s)' % sp.label, artifact_dir=os.path.join(mod, sp.pkg), model=None, harness=label))
             res['disagreements_checked'] += 1
+    if determinism:
+        determinism_checks(pid, wire, mod, res, label)
     # compile with the generated files standing in for the templates (C01)
     rc, out, err = sh(['go', 'build', './...'], mod)
     bad_compile = set()
